@@ -9,7 +9,7 @@ F_Units  == {BinCase("units", op, i, j, "f8", "f8", "arr", "s2", "s2") : op \in 
 F_Dtypes == {BinCase("dtypes", op, i, j, a, b, "arr", "s2", "s2") : op \in Arith \cup Cmp, i \in {IdxOf("m"), IdxOf("cm")}, j \in {IdxOf("m"), IdxOf("cm"), IdxOf("s")}, a \in Dts, b \in Dts}
             \cup {BinCase("dtypes", op, i, i, a, b, "arr", "s2", "s2") : op \in Arith \cup Cmp, i \in {IdxOf("1")}, a \in Dts, b \in Dts}
 F_Kinds  == {BinCase("kinds", op, i, j, a, "f8", rk, "s2", IF rk \in {"int", "float", "nd0"} THEN "s0" ELSE "s2") :
-               op \in Arith \cup Cmp, i \in {IdxOf("m"), IdxOf("1"), IdxOf("m/cm")}, j \in {IdxOf("m"), IdxOf("cm"), IdxOf("s"), IdxOf("1")}, a \in {"f8", "i8", "f4"}, rk \in RhsKinds \ {"arr"}}
+               op \in Arith \cup Cmp, i \in {IdxOf("m"), IdxOf("1"), IdxOf("m/cm")}, j \in {IdxOf("m"), IdxOf("cm"), IdxOf("s"), IdxOf("1")}, a \in {"f8", "i8", "f4", "i4"}, rk \in RhsKinds \ {"arr"}}
 F_Shapes == {BinCase("shapes", op, IdxOf("m"), j, "f8", "f8", "arr", ls, rs) : op \in {"add", "mul", "div", "lt", "eq"}, j \in {IdxOf("cm"), IdxOf("m")}, ls \in Shapes, rs \in Shapes}
 F_Logic  == {BinCase("logic", op, IdxOf("1"), IdxOf("1"), "b1", "b1", "arr", ls, rs) : op \in Logic, ls \in {"s0", "s2", "s12", "s22"}, rs \in {"s0", "s2", "s22"}}
 F_Unary  == {[fam |-> "unary", op |-> op, lu |-> i, ldt |-> a, ls |-> s] : op \in UnOps \ {"invert"}, i \in 1..NPool, a \in {"f8", "i8"}, s \in {"s2"}}
@@ -30,6 +30,13 @@ F_Np     == {[fam |-> "np", f |-> f, lu |-> i, ru |-> i, rk |-> "none", ldt |-> 
 HistFns == {"sqrt", "square", "reciprocal"}
 F_NpHist == {[fam |-> "nphist", f1 |-> f1, mut |-> m, f2 |-> f2, lu |-> i, ldt |-> "f8", ls |-> "s2"] :
                f1 \in HistFns, m \in {"imul", "out", "setter", "idiv"}, f2 \in HistFns, i \in {IdxOf("m"), IdxOf("s"), IdxOf("m2")}}
+\* ... and the same for the operators (C02): after x *= y the unit of x * k, x ** 2, k / x follows the unit x has then
+F_OpHist == {[fam |-> "ophist", mut |-> m, f2 |-> f2, lu |-> i, ru |-> j, ldt |-> "f8", ls |-> "s2"] :
+               m \in {"imul", "idiv"}, f2 \in {"mulk", "pow2", "rdivk", "neg", "imul2"}, i \in {IdxOf("m"), IdxOf("s")}, j \in {IdxOf("s"), IdxOf("cm")}}
+OpHistUnit(c) == LET u == PU(c.lu)  v == IF Compatible(u, PU(c.ru)) THEN u ELSE PU(c.ru)
+                     now == IF c.mut = "imul" THEN UMul(u, v) ELSE UDiv(u, v) IN
+                 CASE c.f2 \in {"mulk", "neg"} -> now [] c.f2 = "pow2" -> UPow(now, 2) [] c.f2 = "rdivk" -> UInv(now)
+                   [] c.f2 = "imul2" -> (IF c.mut = "imul" THEN UMul(now, v) ELSE UDiv(now, v))
 UnitAfter(m, u) == CASE m \in {"imul", "out"} -> UMul(u, u) [] m = "idiv" -> Unit0 [] m = "setter" -> UPow(U1("kg"), 2)
 Tr(f, u) == CASE f = "sqrt" -> URoot(u, 2) [] f = "square" -> UPow(u, 2) [] f = "reciprocal" -> UInv(u)
 \* in-place operators x op= y (C17): the outcome is that of x op y (same rule), x stays the same object, y is left untouched
@@ -37,7 +44,7 @@ F_Inplace == {BinCase("inplace", op, i, j, "f8", b, rk, "s2", IF rk = "float" TH
                 op \in Arith, i \in SmallPool \cup {IdxOf("km")}, j \in SmallPool \cup {IdxOf("km")}, b \in {"f8", "f4"}, rk \in {"arr", "qty", "float", "nd1"}}
 CONSTANT Fams       \* the families a run enumerates (a check only needs those that decide its property)
 FamSet(f) == CASE f = "units" -> F_Units [] f = "dtypes" -> F_Dtypes [] f = "kinds" -> F_Kinds [] f = "shapes" -> F_Shapes [] f = "logic" -> F_Logic
-               [] f = "unary" -> F_Unary [] f = "to" -> F_To [] f = "chain" -> F_Chain [] f = "np" -> F_Np \cup F_NpHist [] f = "inplace" -> F_Inplace
+               [] f = "unary" -> F_Unary [] f = "to" -> F_To [] f = "chain" -> F_Chain [] f = "np" -> F_Np \cup F_NpHist [] f = "inplace" -> F_Inplace [] f = "ophist" -> F_OpHist
 LaneCases(k) == UNION {{c \in FamSet(f) : (c.lu * 7 + (IF "ru" \in DOMAIN c THEN c.ru ELSE 0)) % NL = k} : f \in Fams}
 
 OutcomeOf(c) ==
@@ -46,6 +53,7 @@ OutcomeOf(c) ==
     [] c.fam = "to" -> ToOutcome(c.lu, c.ru)
     [] c.fam = "chain" -> [ab |-> ToOutcome(c.lu, c.mu), bc |-> ToOutcome(c.mu, c.ru), ac |-> ToOutcome(c.lu, c.ru)]
     [] c.fam = "np" -> NpOutcome(c)
+    [] c.fam = "ophist" -> [raises |-> FALSE, bool |-> FALSE, unit |-> Sparse(OpHistUnit(c))]
     [] c.fam = "nphist" -> [raises |-> FALSE, bool |-> FALSE, unit |-> Sparse(Tr(c.f2, UnitAfter(c.mut, PU(c.lu))))]
 
 VARIABLES lane, case
